@@ -41,7 +41,8 @@ def cases(tier, seed):
         out.append({"picker": picker, "scale": float(rng.choice([0.5, 1.0, 2.3])),
                     "npart": int(rng.integers(3, 13 if picker != "tm" else 7)),
                     "dtype": ("float32", "float64", "uint8", "int16")[int(rng.integers(0, 4))] if picker != "tm" else "float32",
-                    "chunking": ("halves", "irregular", "thin", "pencil", "single", "cubes")[int(rng.integers(0, 6))],
+                    "chunking": ("halves", "irregular", "thin", "pencil", "single", "cubes", "through")[int(rng.integers(0, 7))],
+                    "even": bool(rng.random() < 0.5),
                     "sched": ("sync", "threads", "shuffle")[int(rng.integers(0, 3))],
                     "iseed": int(rng.integers(0, 2**31)), "cost": 6.0 if picker == "tm" else 3.0,
                     "slab": bool(rng.random() < 0.25), "md_px": float(rng.choice([5.0, 8.0, 10.0]))})
@@ -141,6 +142,9 @@ def run(case):
     else:
         S = 11
         tshape = (S, S, S) if rng.random() < 0.5 else (9, 11, 13)   # non-cubic: per-axis overlap depth
+        if p.get("even"):
+            # even sides: the particle centre (and the reported position) lies between voxels, at k - 0.5
+            tshape = (10, 10, 10) if rng.random() < 0.5 else (8, 10, 12)
         blobs = gen.make_blobs(rng, tshape, n=4, sigma=(0.9, 1.1), r_sup=1.8)
         tmpl = gen.render_box(tshape, blobs)
         rots = [Rotation.identity(), Rotation.from_rotvec([0, 0, np.pi / 2]), Rotation.from_rotvec([np.pi / 2, 0, 0])]
@@ -148,7 +152,7 @@ def run(case):
         shape = tuple(int(x) for x in rng.integers(36, 53, size=3))
         md_px = float(p.get("md_px", 5.0))
         truth = _place(rng, shape, p["npart"], min_sep=max(tshape) + (6 if md_px == 5.0 else 2), margin=max(tshape) / 2 + 3)
-        truth = np.round(truth)
+        truth = np.round(truth) + (0.5 * (1 - np.asarray(tshape) % 2))
         vol = np.zeros(shape)
         ks = []
         for t in truth:
@@ -187,7 +191,14 @@ def run(case):
     base = picker.pick_molecules(vol, scale, **kw)
     base_picks = check_picks(base, "numpy image")
     # ---- chunked runs
-    chunks = _chunks(p["chunking"], shape, depth, rng)
+    if p["chunking"] == "through":
+        # chunk borders that pass exactly through a particle centre (for even templates: through the reported
+        # half-integer position k - 0.5, i.e. chunk k starts right after it)
+        t0 = truth[int(rng.integers(0, len(truth)))]
+        chunks = tuple((int(np.ceil(t)), s_ - int(np.ceil(t))) for t, s_ in zip(t0, shape))
+        case.count("chunk_border_through_particle")
+    else:
+        chunks = _chunks(p["chunking"], shape, depth, rng)
     darr = da.from_array(vol, chunks=chunks)
     nchunks = int(np.prod([len(c) for c in darr.chunks]))
     if nchunks > 1:
